@@ -6,6 +6,7 @@ CONSTANTS
   Caps = {@CAPS@}
   Creds = {@CREDS@}
   InitSess = {@INITSESS@}
+  MaxNew = @MAXNEW@
   MaxTraffic = @MAXTRAFFIC@
   AdminOps = {@ADMINOPS@}
   MaxAdmin = @MAXADMIN@
